@@ -207,6 +207,10 @@ func runC17(c *Ctx) {
 	// R13 (= C10.R18): the handler's FileInfo overrides are consulted for every entry
 	checkOverrideInterfacesConsulted(c, "R13")
 	checkUnresolvedIDShownAsNumber(c, "R14")
+	// R15 (= C06.R6): the attribute decoder threads its cursor; R16 (= C10.R11): an entry's attributes are encoded when
+	// the handler returned them, together with its long name
+	c.withOnly("R6", "R15", func() { runC06(c) })
+	c.withOnly("R11", "R16", func() { runC10(c) })
 	// R9 (shared with C07.R6): the attribute bytes a set-attributes request hands to the server or to the handler are
 	// the bytes its decoder validated against the flags word
 	checkAttrsValidatedAtDecode(c, "R9")
